@@ -1436,9 +1436,11 @@ def degenerate_polygon_probe(ctx):
     outside the property (not an equilibrium): recorded, not reported as a failure"""
     import subprocess
     import sys
-    code = ("import numpy as np\nfrom cherab.core.math import PolygonMask2D\n"
-            "try:\n    PolygonMask2D(np.array([[0.0, 0.0], [1.0, 1.0]]))\n    print('accepted')\n"
-            "except Exception as e:\n    print('raised', type(e).__name__)\n")
+    code = ("import numpy as np\nfrom raysect.core import Point2D\nfrom cherab.tools.equilibrium.efit import EFITEquilibrium\n"
+            "r = np.linspace(1.0, 3.0, 9); z = np.linspace(-1.0, 1.0, 9); R, Z = np.meshgrid(r, z, indexing='ij')\n"
+            "p = np.array([[0.0, 1.0], [1.0, 1.0]])\n"
+            "try:\n    EFITEquilibrium(r, z, (R - 2) ** 2 + Z ** 2, 0.0, 0.5, Point2D(2, 0), [], [], p, p, 2.0, 1.0, np.array([[1.5, 2.5], [0.0, 0.0]]), None, 0.0)\n"
+            "    print('accepted')\nexcept Exception as e:\n    print('raised', type(e).__name__)\n")
     try:
         r = subprocess.run([sys.executable, '-c', code], stdout=subprocess.PIPE, stderr=subprocess.DEVNULL, text=True, timeout=120)
         res = r.stdout.strip() if r.returncode == 0 else 'process died (exit %d)' % r.returncode
